@@ -360,6 +360,15 @@ func raceWorker(c *Ctx, group string) error {
 			out.Notes = append(out.Notes, "unknown group "+group)
 		}
 	}()
+	// the torn-read search reads expirations out of DebugDump's text: when that text is not in the
+	// format the harness knows the search is blind there -- said through planned-vs-run, never a finding
+	if r, u := int(dumpStampsRead.Load()), int(dumpFormatUnknown.Load()); r+u > 0 {
+		out.Dist["planned:dumped-expirations-readable"] += r + u
+		out.Dist["ran:dumped-expirations-readable"] += r
+		if u > 0 {
+			out.Notes = append(out.Notes, fmt.Sprintf("%s: %d expirations in DebugDump output were not in the known timestamp format (dump format changed?): not judged for torn reads", group, u))
+		}
+	}
 	b, _ := json.Marshal(out)
 	return os.WriteFile(os.Getenv("VERIF_RACE_OUT"), b, 0o644)
 }
